@@ -23,6 +23,11 @@ RULE = ("one case = an established pair (each TLS 1.3 suite, with/without "
         "upd' chain applied once per KeyUpdate sent in that direction, "
         "heartbeat echo equals the request payload, client chain recorded "
         "only by a completed PHA; plus negative control messages which must "
+        "Also: histories on resumed connections, KeyUpdates crossing a "
+        "pending post-handshake authentication request under every "
+        "request configuration, pump reads (max=0), one more record "
+        "each way opened with independently derived key and IV, "
+        "negatives after HelloRetryRequest.   "
         "draw a fatal alert. distinct_nontrivial = distinct (suite, history "
         "shape: ops used, crossings) cells + distinct negative cells.")
 ASSUMPTIONS = [
